@@ -66,6 +66,14 @@ class MayMixin(object):
         elif cid in getattr(self.d, 'order_sensitive', ()) and out[0] == 'ret' \
                 and last.get(model._mid) == SLOT['prepare_event']:
             out = ('ret', not out[1])
+        # conditions that need what the machine-level prepare_event callbacks provide (`d.pe_sensitive`, only on machines
+        # that HAVE such callbacks): inverted when none of them has run on behalf of this call
+        seen = self.__dict__.setdefault('pe_seen', set())
+        tag = self.items[-1][4] if self.items and self.items[-1][0] == 'call' else None
+        if slot == SLOT['prepare_event']:
+            seen.add((model._mid, tag))
+        elif cid in getattr(self.d, 'pe_sensitive', ()) and out[0] == 'ret' and (model._mid, tag) not in seen:
+            out = ('ret', not out[1])
         return cmds, out
 
     async def ado_cmd(self, c):
@@ -142,6 +150,8 @@ def with_history(d, hist):
                 s_new[k] = s_old[k]
     d2.history = list(hist)
     d2.order_sensitive = getattr(d, 'order_sensitive', ())
+    d2.pe_sensitive = getattr(d, 'pe_sensitive', ())
+    d2.embed = getattr(d, 'embed', ())
     return d2
 
 
@@ -468,11 +478,72 @@ def parallel_desc(rng):
     return d
 
 
+def selfmodel_case(case):
+    """the machine acting as its OWN model (a subclass instance, model='self'), every queue mode the class has:
+    may_<event> must equal 'the trigger issued right away executes a transition' there too"""
+    setup = case['_setup']
+    rng = random.Random(case['sub'])
+    cls = get_cls(setup[1])
+    is_async = setup[3]
+    out, n, trues = [], 0, 0
+    for queued in ([False, True, 'model'] if is_async else [False, True]):
+        for passes in (True, False):
+            log = []
+
+            class SM(cls):
+                def cond(self, *a, **k):
+                    log.append('cond')
+                    return passes
+
+                def moved(self, *a, **k):
+                    log.append('after')
+            extra = {'graph_engine': 'mermaid'} if 'Graph' in setup[1] else {}
+            states = ['A', 'B', 'C'] if not setup[2] else ['A', {'name': 'B', 'children': ['x', 'y'], 'initial': 'x'}, 'C']
+            m = SM(states=states, transitions=[{'trigger': 'go', 'source': 'A', 'dest': 'B', 'conditions': 'cond',
+                                                'after': 'moved'}, ['back', 'B', 'A']],
+                   initial='A', queued=queued, auto_transitions=rng.random() < 0.5, **extra)
+
+            def run(x):
+                return asyncio.run(x) if inspect.isawaitable(x) else x
+            info = {'setup': setup[0], 'queued': queued, 'condition': passes}
+            try:
+                if is_async:
+                    async def both():
+                        a = await m.may_go()
+                        del log[:]
+                        try:
+                            b = await m.go()
+                        except BaseException as e:      # noqa
+                            b = e
+                        return a, b
+                    may, res = asyncio.run(both())
+                else:
+                    may = m.may_go()
+                    del log[:]
+                    try:
+                        res = m.go()
+                    except BaseException as e:      # noqa
+                        res = e
+            except BaseException as e:      # noqa
+                out.append(('may-raised-without-a-raising-callback', dict(info, err=repr(e)[:120]), 'C12.selfmodel:' + setup[0]))
+                return out, n, trues
+            executed = 'after' in log
+            n += 1
+            trues += int(bool(may))
+            if bool(may) != executed or bool(may) != passes:
+                out.append(('may-differs-from-trigger', dict(info, may=bool(may), executed=executed, trigger=repr(res)[:120],
+                                                              state=str(m.state)), 'C12.selfmodel:' + setup[0]))
+                return out, n, trues
+    return out, n, trues
+
+
 def build_case(kind, setup_idx, sub):
     rng = random.Random(sub)
     setup = SETUPS[setup_idx]
     if kind == 'parallel':
         return {'kind': kind, 'setup': setup_idx, 'sub': sub, '_d': parallel_desc(rng), '_setup': setup}
+    if kind == 'selfmodel':
+        return {'kind': kind, 'setup': setup_idx, 'sub': sub, '_d': None, '_setup': setup}
     kn = knobs_routing() if kind == 'routing' else knobs_predict()
     kn.p_bad_dest = 0.45 if kind == 'baddest' else 0.0
     d = flat.gen_flat(rng, kn)
@@ -496,6 +567,17 @@ def build_case(kind, setup_idx, sub):
                     if t['prepare']:
                         sens.update(c for c, _tg in t['conds'] if r2.random() < 0.6)
         d.order_sensitive = frozenset(sens)
+        # compound states whose children and locally declared transitions arrive as an embedded machine instance;
+        # conditions of such local transitions may depend on the embedding machine's prepare_event callbacks having run
+        d.embed = frozenset(i for i, st in enumerate(d.states)
+                            if st.get('children') and not st.get('parallel') and r2.random() < 0.5)
+        pes = set()
+        if d.prepare_event and d.embed:
+            for _e, ts in d.events:
+                for t in ts:
+                    if t.get('local') in d.embed:
+                        pes.update(c for c, _tg in t['conds'] if c not in sens and r2.random() < 0.7)
+        d.pe_sensitive = frozenset(pes)
     if kind == 'routing' and setup[3]:
         # async stages run as gather: keep every stage to one callback so that the routing clause is unambiguous
         for s in d.states:
@@ -514,22 +596,24 @@ def build_case(kind, setup_idx, sub):
 
 def judge_twin(case):
     c = build_case(case['kind'], case['setup'], case['sub'])
-    if 'history' in case:
+    if 'history' in case and c['_d'] is not None:
         c['_d'].history = [tuple(x) for x in case['history']]
     return {'predict': predict_case, 'parallel': predict_case, 'routing': routing_case,
-            'baddest': baddest_case}[case['kind']](c)
+            'baddest': baddest_case, 'selfmodel': selfmodel_case}[case['kind']](c)
 
 
 def twin_chunk(seed, idx, n, kind):
     rng = random.Random('C12/%s/%d/%d' % (kind, seed, idx))
     ex = Exploration()
-    for _ in range(n):
+    for _j in range(n):
         # nested / parallel configurations get twice the share (that is where the copies of `_can_trigger` differ)
         setup_idx = rng.choice([i for i, st in enumerate(SETUPS) for _ in range(2 if st[2] else 1)])
         if kind == 'baddest':
             setup_idx = rng.choice([i for i, st in enumerate(SETUPS) if not st[2]])
         if kind == 'parallel':
             setup_idx = rng.choice([i for i, st in enumerate(SETUPS) if st[2]])
+        if kind == 'selfmodel':
+            setup_idx = _j % len(SETUPS)        # every class setup, every run
         sub = rng.randrange(1 << 30)
         case = {'kind': kind, 'setup': setup_idx, 'sub': sub}
         try:
@@ -538,7 +622,7 @@ def twin_chunk(seed, idx, n, kind):
             raise
         ex.evaluations += 1
         ex.traces_validated += nchk
-        if (kind in ('predict', 'baddest', 'parallel') and 0 < ntrue < nchk) or (kind == 'routing' and ntrue > 0 and nchk > 0):
+        if (kind in ('predict', 'baddest', 'parallel', 'selfmodel') and 0 < ntrue < nchk) or (kind == 'routing' and ntrue > 0 and nchk > 0):
             ex.nontrivial.add('%s/%d/%d' % (kind, setup_idx, sub))
         h = ex.stats.setdefault(kind + '_setup', {})
         h[SETUPS[setup_idx][0]] = h.get(SETUPS[setup_idx][0], 0) + 1
@@ -552,7 +636,7 @@ def twin_chunk(seed, idx, n, kind):
 
 
 def shrink_twin(case):
-    if case['kind'] in ('predict', 'parallel'):
+    if case['kind'] in ('predict', 'parallel', 'selfmodel'):
         return      # the re-entrant comparisons depend on the whole history; the case is already small
     c = build_case(case['kind'], case['setup'], case['sub'])
     hist = case.get('history', [list(x) for x in c['_d'].history])
@@ -607,7 +691,7 @@ class C12(flatcheck.FlatCheck):
         ex = flatcheck.FlatCheck.explore(self, tier, seed)
         np_, nr = ((16, 16), (16, 40)) if tier == 'quick' else ((64, 40), (32, 200))
         payloads = ([(seed, i, np_[1], 'predict') for i in range(np_[0])] + [(seed, i, nr[1], 'routing') for i in range(nr[0])]
-                    + [(seed, i, nr[1], 'baddest') for i in range(8)] + [(seed, i, np_[1] * 2, 'parallel') for i in range(16)])
+                    + [(seed, i, nr[1], 'baddest') for i in range(8)] + [(seed, i, 8, 'selfmodel') for i in range(1)] + [(seed, i, np_[1] * 2, 'parallel') for i in range(16)])
         fails = []
         for part in runner.parallel(twin_chunk, payloads):
             fails += part.failures
